@@ -70,18 +70,30 @@ pub fn hex(b: &[u8]) -> String {
     if b.is_empty() {
         return "-".to_string();
     }
-    let mut s = String::with_capacity(b.len() * 2);
+    const D: &[u8; 16] = b"0123456789abcdef";
+    let mut s = Vec::with_capacity(b.len() * 2);
     for x in b {
-        s.push_str(&format!("{:02x}", x));
+        s.push(D[(x >> 4) as usize]);
+        s.push(D[(x & 15) as usize]);
     }
-    s
+    // only ASCII digits were pushed
+    unsafe { String::from_utf8_unchecked(s) }
 }
 
 pub fn unhex(s: &str) -> Vec<u8> {
     if s == "-" {
         return Vec::new();
     }
-    (0..s.len() / 2).map(|i| u8::from_str_radix(&s[2 * i..2 * i + 2], 16).expect("hex")).collect()
+    fn v(c: u8) -> u8 {
+        match c {
+            b'0'..=b'9' => c - b'0',
+            b'a'..=b'f' => c - b'a' + 10,
+            b'A'..=b'F' => c - b'A' + 10,
+            _ => panic!("hex"),
+        }
+    }
+    let b = s.as_bytes();
+    (0..b.len() / 2).map(|i| (v(b[2 * i]) << 4) | v(b[2 * i + 1])).collect()
 }
 
 /// Hash algorithms shared (by name) with the Lean driver.
@@ -137,15 +149,21 @@ pub static DEFAULT_HASH_KIND: AtomicU8 = AtomicU8::new(0);
 #[derive(Clone, Copy, Debug)]
 pub struct VHasher {
     pub kind: HashKind,
+    /// per-object state (like the random keys of `RandomState`): two interners built independently hash
+    /// differently, a clone hashes like its source.  Only the kinds that look at the content depend on it.
+    pub seed: u64,
 }
 impl Default for VHasher {
     fn default() -> Self {
-        VHasher { kind: HashKind::from_u8(DEFAULT_HASH_KIND.load(Ordering::SeqCst)) }
+        VHasher { kind: HashKind::from_u8(DEFAULT_HASH_KIND.load(Ordering::SeqCst)), seed: 0 }
     }
 }
 impl VHasher {
     pub fn new(kind: HashKind) -> Self {
-        VHasher { kind }
+        VHasher { kind, seed: 0 }
+    }
+    pub fn seeded(kind: HashKind, seed: u64) -> Self {
+        VHasher { kind, seed }
     }
 }
 
@@ -184,7 +202,7 @@ impl Hasher for VState {
 impl BuildHasher for VHasher {
     type Hasher = VState;
     fn build_hasher(&self) -> VState {
-        VState { kind: self.kind, fnv: 0xcbf2_9ce4_8422_2325, count: 0, first: None }
+        VState { kind: self.kind, fnv: 0xcbf2_9ce4_8422_2325 ^ self.seed.wrapping_mul(0x9E37_79B9_7F4A_7C15), count: 0, first: None }
     }
 }
 
